@@ -924,6 +924,14 @@ impl<const N: usize> SubscriptionsInner<N> {
 
     /// Remove entries that every subscription has already reported on.
     fn purge_reported_changes(&mut self) {
+        if self.subscriptions_count != self.subscriptions.len() {
+            // A subscription is in flight - being primed or reported on - and thus
+            // not in the table: its watermark is not part of the minimum below, and a
+            // change recorded after its report started would be purged before it is
+            // committed. Postpone until everybody is back in the table.
+            return;
+        }
+
         if let Some(min_seen_attr_change_id) = self
             .subscriptions
             .iter()
